@@ -227,6 +227,38 @@ def swapped_direct_path_has_equal_times_and_reversed_directions():
     prove("received_B = -emitted_A (vertical)", eq(rB[2], -eA[2]))
 
 
+def launch_stub(self, r_function, min_angle=0, max_angle=None):
+    """contract of _get_launch_angle (proved in C01: get_launch_angle_contract): the angle at from_point of the ray whose
+    angle at the lower endpoint is the root, in [0, pi/2], with the same Snell invariant"""
+    theta = real("launch_theta")
+    root = real("launch_root")
+    n_src = self.ice.index(self.from_point[2])
+    assume(And(root >= min_angle, root < pi / 2, eq(n_src * sin(theta), self.n0 * sin(root)), theta >= 0, theta <= pi / 2))
+    return theta
+
+
+@harness(clause="reciprocity")
+def direct_ray_leaves_the_higher_endpoint_downward():
+    """what the reciprocity harness above assumes about the two launch angles: the direct ray leaves the lower endpoint
+    upward (angle in [0, pi/2]) and the higher endpoint downward (angle in [pi/2, pi]), with the Snell invariant of the
+    traced ray in both cases - re-established here so that C02 does not rest on another property's check"""
+    ice, n0, k, a, lo = exp_ice()
+    p0 = vec("p")
+    p1 = vec("q")
+    assume(And(lo <= p0[2], p0[2] <= 0, lo <= p1[2], p1[2] <= 0))
+    tracer = new(ST, p0, p1, ice_model=ice, dz=1)
+    tracer._lazy_expected_solutions = [True, False, True]
+    use_stub(BT + "._get_launch_angle", launch_stub)
+    ang = tracer.direct_angle
+    n_src = n0 - k * exp(a * p0[2])
+    prove("upward-from-the-lower-endpoint", implies(p0[2] <= p1[2], And(ang >= 0, ang <= pi / 2)))
+    prove("downward-from-the-higher-endpoint", implies(p0[2] > p1[2], And(ang >= pi / 2, ang <= pi)))
+    prove("snell-invariant-of-the-traced-ray", eq(n_src * sin(ang), tracer.n0 * sin(real("launch_root"))))
+    path = tracer.solutions[0] if False else new(SP, tracer, ang, True)
+    prove("emitted-direction-points-down-from-the-higher-endpoint", implies(p0[2] > p1[2], path.emitted_direction[2] <= 0))
+    prove("emitted-direction-points-up-from-the-lower-endpoint", implies(p0[2] <= p1[2], path.emitted_direction[2] >= 0))
+
+
 # ---------------------------------------------------------------------------
 # existence and number of solutions
 # ---------------------------------------------------------------------------
